@@ -3,6 +3,7 @@ mod c10;
 mod c11;
 mod consumer;
 mod c13;
+mod c15;
 mod c16;
 mod c18;
 mod coq;
@@ -39,6 +40,7 @@ fn main() {
         "c10" => c10::run(&out, &tier, seed, shards, replay),
         "c18" => c18::run(&out, &tier, seed, shards, replay),
         "c16" => c16::run(&out, &tier, seed, shards, replay),
+        "c15" => c15::run(&out, &tier, seed, shards, replay),
         "c11" => c11::run(&out, &tier, seed, shards, replay),
         other => {
             eprintln!("unknown command {}", other);
